@@ -14,7 +14,7 @@ def known(d):
 
 def corpus_cases():
     return hist.marker_collision_cases("c09") + hist.wo_names_cases("c09") + \
-        hist.lower_only_cases("c09", ["ovl_mm", "ovl_mmm", "ovl_alt", "ovl_pp"])
+        hist.lower_only_cases("c09", ["ovl_mm", "ovl_mmm", "ovl_alt", "ovl_pp"]) + hist.twin_overlay_cases("c09")
 
 
 CONFIGS = ["ovl_m", "ovl_mm", "ovl_mmm", "ovl_4", "ovl_pmpm", "ovl_pp", "ovl_mp", "ovl_sub", "ovl_late", "alt_ovl", "ovl_alt", "ovl_ovl"]
